@@ -368,7 +368,9 @@ def pool_judge(ctx, case, src, rc, out, err):
         return None
     i, cls, det = fails[0]
     det["observed_sharing"] = pattern
-    det["model_shipped"] = case["objShipped"]
+    det["model_sharing"] = case["objModel"]
+    # attribution to a named deviation (Pool.tla): since /repo 7b5722a both are switched off in the cfgs and the finding is
+    # recorded as fixed, so these keys are no longer suppressed: the old behaviour coming back is a VIOLATION
     if pattern == case["objShipped"] and cls == "content":
         key = "pool:content:Dev_PoolKeyInElements"
     elif pattern == case["objNaive"] and cls == "align":
@@ -395,16 +397,16 @@ def pool_check(ctx, objdir):
         rc, out, err = vlib.cproc(objdir, src)
         return pool_judge(ctx, c, src, rc, out, err), src
     res = vlib.pmap(one, list(enumerate(cases)), workers=12)
-    stats = {"units": len(cases), "served": 0, "pattern_shipped": 0, "pattern_fixed": 0, "pattern_other": 0, "not_served": 0}
+    stats = {"units": len(cases), "served": 0, "pattern_model": 0, "pattern_shipped": 0, "pattern_other": 0, "not_served": 0}
     for c, (v, src) in zip(cases, res):
-        nontriv = len(set(c["objShipped"])) < len(c["objShipped"]) or len(set(c["objFixed"])) < len(c["objFixed"])
+        nontriv = len(set(c["objShipped"])) < len(c["objShipped"]) or len(set(c["objModel"])) < len(c["objModel"])
         with _LOCK:
             ctx.count("pool:" + src, nontrivial=nontriv)
         pat = c.get("_pattern")
-        if pat == c["objShipped"]:
+        if pat == c["objModel"]:
+            stats["pattern_model"] += 1
+        elif pat == c["objShipped"]:
             stats["pattern_shipped"] += 1
-        elif pat == c["objFixed"]:
-            stats["pattern_fixed"] += 1
         else:
             stats["pattern_other"] += 1
         if v is None:
@@ -418,7 +420,7 @@ def pool_check(ctx, objdir):
     with _LOCK:
         ctx.validated(len(cases))
         ctx.cov["pool"] = stats
-        ctx.sample({"pool unit": pool_unit(cases[len(cases) // 3], len(cases) // 3), "model_shipped_sharing": cases[len(cases) // 3]["objShipped"],
+        ctx.sample({"pool unit": pool_unit(cases[len(cases) // 3], len(cases) // 3), "model_sharing": cases[len(cases) // 3]["objModel"],
                     "required": "every p_i addresses storage beginning with the literal's image, aligned for its element type"})
 
 
